@@ -47,11 +47,15 @@ class Filter(base.Filter):
 
                 elif token["name"].lower() == "head" and not meta_found:
                     # insert meta into empty head
+                    namespace = token.get("namespace")
                     yield {"type": "StartTag", "name": "head",
+                           "namespace": namespace,
                            "data": token["data"]}
                     yield {"type": "EmptyTag", "name": "meta",
+                           "namespace": namespace,
                            "data": {(None, "charset"): self.encoding}}
-                    yield {"type": "EndTag", "name": "head"}
+                    yield {"type": "EndTag", "name": "head",
+                           "namespace": namespace}
                     meta_found = True
                     continue
 
@@ -61,6 +65,7 @@ class Filter(base.Filter):
                     yield pending.pop(0)
                     if not meta_found:
                         yield {"type": "EmptyTag", "name": "meta",
+                               "namespace": token.get("namespace"),
                                "data": {(None, "charset"): self.encoding}}
                     while pending:
                         yield pending.pop(0)
